@@ -277,6 +277,33 @@ func genParams(tier string, seed uint64) []Params {
 	for i := 0; i < nN; i++ {
 		out = append(out, genOne(r, len(out), seed, nativeModes[i%len(nativeModes)], false, i%3 == 0, tier))
 	}
+	// byte-level scenarios in which the head and the early bytes fill the proxy's 4096-byte reader exactly,
+	// miss it by one, or exceed it: the model of that reader (Switchover.v) must predict what it holds
+	nB := 9
+	if tier == "thorough" {
+		nB = 90
+	}
+	for i := 0; i < nB; i++ {
+		p := genOne(r, len(out), seed, []string{"direct", "uphttp", "upgrade"}[i%3], true, true, tier)
+		p.Handler, p.BodyObs, p.ViaProxy = false, false, false
+		p.HeadPieces, p.Eager, p.HeadVariant = 1, true, 0
+		p.Sched[0] = pickS(r, "full", "full", "mixed")
+		p.HeadPad = 100 + r.Intn(400)
+		p.Len[CT] = 4300 + r.Intn(900)
+		switch i % 3 {
+		case 0:
+			p.Early = 4096 - (connectHeadBase + 9 + p.HeadPad) + r.Intn(5) - 2
+		case 1:
+			p.Early = p.Len[CT]
+		default:
+			p.Early = 3000 + r.Intn(p.Len[CT]-3000)
+		}
+		p.Post = [2]int{}
+		if p.Order == "target_first" {
+			p.Order = "client_first"
+		}
+		out = append(out, p)
+	}
 	// tunnels that outlive the configured ReadTimeout / WriteTimeout / IdleTimeout (proxy instance with all
 	// three set): the second closer sends its remaining bytes when the tunnel is older than each of them —
 	// the client (late client-to-target bytes) or the far endpoint (late target-to-client bytes)
@@ -425,6 +452,26 @@ func hexChunks(t string) string {
 	return "[" + strings.Join(parts, ";\n      ") + "]"
 }
 
+// coqHead: the request head the client sent, for the model of the proxy's reader on the client
+// connection (Switchover.v).  Not compared when the proxy runs under net/http's server (its own reader).
+func coqHead(o outcome) string {
+	if o.res.P.Handler {
+		return hexs(nil)
+	}
+	return hexs(o.sc.head)
+}
+
+func coqNats(v []int) string {
+	if len(v) == 0 {
+		return "(@nil nat)"
+	}
+	parts := make([]string, len(v))
+	for i, n := range v {
+		parts[i] = fmt.Sprintf("%d", n)
+	}
+	return "[" + strings.Join(parts, "; ") + "]%nat"
+}
+
 func coqFraming(p Params) string {
 	if p.Mode != "uphttp" && p.Mode != "uphttps" {
 		return "(mkFr false 0 true)"
@@ -456,8 +503,8 @@ func coqCase(o outcome, graceNs int64) string {
 		tr := fmt.Sprintf("(%s %s)", fn, hexChunks(traceString(o.built.Labels, p.Concrete)))
 		ok := len(o.built.Problems) == 0
 		if p.Concrete {
-			fmt.Fprintf(&sb, "{| cc_mode := %d; cc_wellformed := %s; cc_grace := (%d)%%Z; cc_fr := %s; cc_tmo := %s; cc_treq := (%d)%%Z; cc_tresp := (%d)%%Z; cc_weak := %s; cc_cipher_wn := %d; cc_cipher_w := %d; cc_cipher_r := %d; cc_early := %s; cc_skip := %s; cc_kept := %s;\n   cc_trace := %s;\n   cc_obs := %s |}",
-				modeN(p.Mode), b2c(ok), graceNs, coqFraming(p), coqTimeouts(p), o.built.TReq, o.built.TResp, b2c(o.built.Weak), o.built.CipherWN, o.built.CipherW, o.built.CipherR, hexs(o.built.Early), hexs(o.built.Skip), hexs(o.built.Kept), tr, coqObs(o, true))
+			fmt.Fprintf(&sb, "{| cc_mode := %d; cc_wellformed := %s; cc_grace := (%d)%%Z; cc_fr := %s; cc_tmo := %s; cc_treq := (%d)%%Z; cc_tresp := (%d)%%Z; cc_weak := %s; cc_cipher_wn := %d; cc_cipher_w := %d; cc_cipher_r := %d; cc_head := %s; cc_lcsched := %s; cc_early := %s; cc_skip := %s; cc_kept := %s;\n   cc_trace := %s;\n   cc_obs := %s |}",
+				modeN(p.Mode), b2c(ok), graceNs, coqFraming(p), coqTimeouts(p), o.built.TReq, o.built.TResp, b2c(o.built.Weak), o.built.CipherWN, o.built.CipherW, o.built.CipherR, coqHead(o), coqNats(o.built.LCSched), hexs(o.built.Early), hexs(o.built.Skip), hexs(o.built.Kept), tr, coqObs(o, true))
 		} else {
 			fmt.Fprintf(&sb, "{| ac_mode := %d; ac_wellformed := %s; ac_grace := (%d)%%Z; ac_fr := %s; ac_tmo := %s; ac_treq := (%d)%%Z; ac_tresp := (%d)%%Z; ac_early := %d; ac_skip := %d; ac_kept := %d;\n   ac_trace := %s;\n   ac_obs := %s |}",
 				modeN(p.Mode), b2c(ok), graceNs, coqFraming(p), coqTimeouts(p), o.built.TReq, o.built.TResp, o.built.EarlyN, o.built.SkipN, o.built.KeptN, tr, coqObs(o, false))
@@ -469,7 +516,7 @@ func coqCase(o outcome, graceNs int64) string {
 
 const shardHead = `From Coq Require Import List NArith ZArith String.
 From FwdLib Require Import Bytes.
-From G03 Require Import Tables Tunnel Abstract Weak ReplyReader Deadlines Check.
+From G03 Require Import Tables Tunnel Abstract Weak ReplyReader Switchover Deadlines Check.
 Import ListNotations.
 Open Scope N_scope.
 `
